@@ -1,7 +1,9 @@
 """Scripted, self-describing, recording gymnasium environments (DESIGN §3).
 
 An *episode script* is a list of ``[length >= 1, end]`` pairs with ``end`` in
-{"term", "trunc"}; it is cycled.  Observations are unique and decodable:
+{"term", "trunc", "both"} ("both": the step returns terminated and truncated
+together, as gymnasium's TimeLimit does when the limit expires on a
+terminating step); it is cycled.  Observations are unique and decodable:
 ``obs = [episode, t, payload, ...]`` with payload a hash of (seed, episode, t).
 Rewards are ``episode + t/1000 + payload`` evaluated for the step that
 produced them.  Dynamics ignore the action, so a history is controlled by the
@@ -47,7 +49,7 @@ class ScriptedEnv(gym.Env):
                  on_step=None, env_id=0, reward_scale=1.0, spec_id="Scripted-v0"):
         assert obs_dim >= 3
         self.script = [(int(l), str(e)) for l, e in script]
-        assert all(l >= 1 and e in ("term", "trunc") for l, e in self.script)
+        assert all(l >= 1 and e in ("term", "trunc", "both") for l, e in self.script)
         self.script_seed = int(seed)
         self.obs_dim = obs_dim
         self.observation_space = gym.spaces.Box(-np.inf, np.inf, (obs_dim,), dtype=np.float32)
@@ -108,8 +110,8 @@ class ScriptedEnv(gym.Env):
         self.t += 1
         self.n_steps += 1
         obs = self.make_obs(self.episode, self.t)
-        terminated = bool(self.t >= length and end == "term")
-        truncated = bool(self.t >= length and end == "trunc")
+        terminated = bool(self.t >= length and end in ("term", "both"))
+        truncated = bool(self.t >= length and end in ("trunc", "both"))
         self.done = terminated or truncated
         ev = {"kind": "step", "env": self.env_id, "action": a, "obs": obs.copy(), "reward": reward,
               "terminated": terminated, "truncated": truncated, "episode": self.episode, "t": self.t,
@@ -167,8 +169,8 @@ class ScriptedTabularEnv(gym.Env):
         self.t += 1
         self.n_steps += 1
         obs = self.make_obs(self.episode, self.t)
-        terminated = bool(self.t >= length and end == "term")
-        truncated = bool(self.t >= length and end == "trunc")
+        terminated = bool(self.t >= length and end in ("term", "both"))
+        truncated = bool(self.t >= length and end in ("trunc", "both"))
         self.done = terminated or truncated
         ev = {"kind": "step", "env": 0, "action": int(action), "obs": obs, "reward": reward,
               "terminated": terminated, "truncated": truncated, "episode": self.episode, "t": self.t,
